@@ -28,6 +28,12 @@ def build_cases(R, mc, seedmul):
 
 def run(R):
     q = R.tier == "quick"
+    # layer 2: the resume protocol between the native state machine and Go (termination, capacity independence, progress);
+    # the _resume configuration shows what the restart after ERR_OOM_BUF is for: without it TLC finds the capacity-dependent output
+    R.model_check("MC_J2TResume", "MC_J2TResume.cfg", timeout=3000, workers=8)
+    rr = R.model_check("MC_J2TResume", "MC_J2TResume_resume.cfg", timeout=3000, workers=8, expect_ok=False, name="MC_J2TResume(resume-after-OOM_BUF)")
+    if "CapacityIndependent" not in str(rr["violated"]):
+        raise vlib.Broken("J2TResume is vacuous: resuming after ERR_OOM_BUF must break CapacityIndependent in the model, TLC found: %r" % (rr["violated"],))
     mc = R.model_check("MC_J2T", "MC_J2T_quick.cfg" if q else "MC_J2T_thorough.cfg", timeout=3000, workers=8)
     cf, cases = build_cases(R, mc, 104729)
     mc["records"] = None
@@ -35,6 +41,7 @@ def run(R):
     tr1 = os.path.join(R.scratch, "c02-a.ndjson")
     R.drive("c02", "out=" + tr1, "cases=" + cf, "prop=c02", timeout=3000)
     R.validate("Trace_J2T", tr1, reset_events=("Desc",), timeout=3000, sticky="Desc")
+    R.validate("Trace_J2TResume", tr1, reset_events=("Desc",), timeout=3000)
     tr2 = os.path.join(R.scratch, "c02-b.ndjson")
     n = 700 if q else 30000
     caps = "" if q else "caps=" + ",".join(str(i) for i in list(range(0, 70)) + [100, 127, 128, 255, 256, 1000, 4095, 4096, 4097])
@@ -45,6 +52,7 @@ def run(R):
                 e = json.loads(ln)
                 R.samples.append(dict(kind="random-doc", text=e.get("text", "")[:400]))
     R.validate("Trace_J2T", tr2, reset_events=("Desc",), timeout=3000)
+    R.validate("Trace_J2TResume", tr2, reset_events=("Desc",), timeout=3000)
     R.extra_cov["tlc_docs_replayed"] = len(cases)
     return vlib.finish(R, "model_checking", RULE, ASSUME)
 
@@ -57,4 +65,5 @@ def replay(R, path):
     tr = os.path.join(R.scratch, "replay-out.ndjson")
     R.drive("c02", "out=" + tr, "cases=" + cf, "prop=c02")
     R.validate("Trace_J2T", tr, reset_events=("Desc",), batches=1)
+    R.validate("Trace_J2TResume", tr, reset_events=("Desc",), batches=1)
     return vlib.finish(R, "model_checking", RULE, ASSUME)
